@@ -56,18 +56,18 @@ const (
 
 // Sym is a symbolic value: an immutable node shared between paths.
 type Sym struct {
-	ID    int
-	Kind  Kind
-	V     ssa.Value // originating SSA value (may be nil for synthetic syms)
-	Typ   types.Type
-	X, Y  *Sym
-	Op    token.Token
-	Index int
-	Elems []*Sym
-	Ops   []*Sym // other operands (for slicing)
-	Fn    *ssa.Function
-	Call  *CallInfo
-	Depth int
+	ID      int
+	Kind    Kind
+	V       ssa.Value // originating SSA value (may be nil for synthetic syms)
+	Typ     types.Type
+	X, Y    *Sym
+	Op      token.Token
+	Index   int
+	Elems   []*Sym
+	Ops     []*Sym // other operands (for slicing)
+	Fn      *ssa.Function
+	Call    *CallInfo
+	Depth   int
 	CommaOk bool
 }
 
@@ -251,16 +251,16 @@ func (s *Sym) describe(d int) string {
 
 // CallInfo describes a resolved call site on a path.
 type CallInfo struct {
-	Instr   ssa.Instruction
-	Common  *ssa.CallCommon
-	Static  *ssa.Function // statically resolved callee (closures and bound methods seen through)
-	Method  *types.Func   // interface method for invoke-mode calls
-	Builtin string
-	FnSym   *Sym // the function value for dynamic calls (nil for static/builtin/invoke)
-	Recv    *Sym // receiver (invoke mode, bound method or static method call)
-	Args    []*Sym
+	Instr    ssa.Instruction
+	Common   *ssa.CallCommon
+	Static   *ssa.Function // statically resolved callee (closures and bound methods seen through)
+	Method   *types.Func   // interface method for invoke-mode calls
+	Builtin  string
+	FnSym    *Sym // the function value for dynamic calls (nil for static/builtin/invoke)
+	Recv     *Sym // receiver (invoke mode, bound method or static method call)
+	Args     []*Sym
 	Bindings []*Sym
-	Pos     token.Pos
+	Pos      token.Pos
 }
 
 // Obj returns the types.Func the call resolves to (static callee's object or the
